@@ -84,7 +84,8 @@ pub fn gen_head(rng: &mut StdRng, o: &HeadOpts) -> GenHead {
     let mut method = String::new();
     if let Some(m) = o.request {
         method = m.to_string();
-        let target = ["/", "/a/b?x=1", "*", "http://h.test/abs"][rng.gen_range(0..4)];
+        let target = ["/", "/a/b?x=1", "*", "http://h.test/abs", "http://caf%C3%A9.example/menu?today", "h.test:443", "/search?", "/%zz%00?%", "http://[::1]:8080/p;v=1?q#f",
+                      "/a,b;c=d/@x?y=1,2&z=[]"][rng.gen_range(0..10)];
         b.extend(format!("{} {} {}\r\n", m, target, ver).as_bytes());
     } else {
         let reason: String = match o.reason {
@@ -115,6 +116,12 @@ pub fn gen_head(rng: &mut StdRng, o: &HeadOpts) -> GenHead {
         } else if o.framing && i == 0 && rng.gen_bool(0.5) {
             let v = rng.gen_range(0..5000u32).to_string();
             ("Content-Length".to_string(), format!(" {}", v).into_bytes(), v.into_bytes())
+        } else if o.framing && i == 1 && fields.first().map(|f: &(String, Vec<u8>)| f.0 == "content-length").unwrap_or(false) && rng.gen_bool(0.4) {
+            // the same Content-Length once more: a field like any other to the head parser
+            let v = fields[0].1.clone();
+            let mut w = b" ".to_vec();
+            w.extend(&v);
+            ("content-length".to_string(), w, v)
         } else if o.framing && i == 1 && rng.gen_bool(0.3) {
             ("Transfer-Encoding".to_string(), b" chunked".to_vec(), b"chunked".to_vec())
         } else {
@@ -365,13 +372,26 @@ pub fn c05(o: &Opts, t: &mut Tracer) -> Value {
         } else {
             None
         };
-        let ho = HeadOpts { nfields, status, http10: i % 3 == 0, reason: (i % 4) as u8, loc_at, request: None, framing: nfields >= 2 && i % 2 == 0, wild: false, giant: false };
+        let giant = i % 25 == 6 && nfields >= 1 && nfields < 100;
+        let ho = HeadOpts { nfields, status, http10: i % 3 == 0, reason: (i % 4) as u8, loc_at: if giant { None } else { loc_at }, request: None, framing: nfields >= 2 && i % 2 == 0 && !giant, wild: false, giant };
         let g = gen_head(&mut rng, &ho);
         selfcheck_head(&g);
         t.case(json!({"ev":"case","comp":"head","lay":g.lay(),"note":format!("status {} fields {}", status, nfields)}));
         t.sig(format!("head/{}/{}/{}/{:?}", status / 100, nfields.min(20), ho.reason, loc_at.map(|x| x.min(3))));
         let api = ["flow", "call"][i % 2];
         let step = if nfields > 100 && o.quick() { 7 } else if nfields > 100 { 3 } else { 1 };
+        if giant {
+            // a head longer than 64 KiB: selected prefix lengths only
+            t.class("offer:giant-head");
+            for p in [0usize, 9, 1000, 65535, 65536, 65537, 65538, 69999, g.h - 2, g.h - 1, g.h, g.h + 2] {
+                if p <= g.bytes.len() {
+                    offer_flow(t, &g, p, api);
+                    offers += 1;
+                }
+            }
+            offer_sequence(t, &g, &[65530, 65537, g.h - 1, g.h], api);
+            continue;
+        }
         let mut p = 0;
         while p <= g.h + 3 {
             offer_flow(t, &g, p, api);
@@ -617,12 +637,18 @@ pub fn c06(o: &Opts, t: &mut Tracer) -> Value {
                             _ => "",
                         };
                         let mut head = format!("HTTP/1.{} {} R\r\n", if http10 { 0 } else { 1 }, status);
+                        // legal fields of no consequence ahead of the framing fields, some with empty values
+                        head.push_str(["", "X-Cache:\r\n", "Vary: \r\nX-Empty:\r\n", "Server: s\r\n"][(status as usize / 5 + mi + ci + ti) % 4]);
                         let te_first = pick % 2 == 0;
                         if te_first && *te != "absent" {
                             head.push_str(&format!("Transfer-Encoding: {}\r\n", te_text));
                         }
                         if *cl != "absent" {
                             head.push_str(&format!("Content-Length: {}\r\n", clv_text));
+                            if *cl == "nonnum" && pick == 3 {
+                                // a further, numeric Content-Length line does not heal the first one
+                                head.push_str("Content-Length: 5\r\n");
+                            }
                         }
                         if !te_first && *te != "absent" {
                             head.push_str(&format!("Transfer-Encoding: {}\r\n", te_text));
